@@ -570,3 +570,16 @@ def direct_target_is(facts, path, upto, who):
         if (is_id(sides[0]) and is_who(sides[1])) or (is_id(sides[1]) and is_who(sides[0])):
             out = (t == es[0])
     return out
+
+
+def field_of(v, name):
+    """The value of field `name` of a struct-valued expression (looks through field updates and aggregates)."""
+    while v[0] == 'upd':
+        if v[2] == name:
+            return v[4]
+        v = v[1]
+    if v[0] == 'agg':
+        x = agg_field(v, name)
+        if x is not None:
+            return x
+    return ('fieldv', v, name, None)
